@@ -132,10 +132,7 @@ class Evaluator:
                 if isinstance(pv_, tuple) and pv_[0] == "ref":
                     return "%s.%s" % (pv_[1], n["name"])
                 if getattr(self, "heap_mode", False):
-                    try:
-                        v = self.ev(bn)
-                    except Unknown:
-                        v = None
+                    v = pv_            # (the base is folded once: it may be a call)
                     if isinstance(v, int):
                         if v == 0:
                             raise Unknown("null dereference: %s" % render(f, n))
